@@ -251,6 +251,15 @@ pub fn vclock_probes(c1: &VClock<A>, c2: &VClock<A>, c3: &VClock<A>, a: &mut Arg
     let roster: Vec<Dot<A>> = (0..4).map(|x| c1.dot(x)).collect();
     let snap: VClock<A> = roster.iter().cloned().collect();
     t.call("vclock.from_iter", &[sx(&roster), sx(&snap)]);
+    // iteration entry points and conversions
+    let it: Vec<Dot<A>> = c1.iter().map(|d| Dot::new(*d.actor, d.counter)).collect();
+    t.call("vclock.iter", &[sx(c1), sx(&it)]);
+    let into: Vec<Dot<A>> = c1.clone().into_iter().collect();
+    t.call("vclock.iter", &[sx(c1), sx(&into)]);
+    let od: OrdDot<A> = OrdDot::from(d.clone());
+    let back: Dot<A> = Dot::from(od.clone());
+    let tup: Dot<A> = Dot::from((d.actor, d.counter));
+    t.call("dot.conv", &[sx(&d), sx(&od), sx(&back), sx(&tup)]);
     t.call("dot.inc", &[sx(&d), sx(&d.inc())]);
     let mut di = d.clone();
     di.apply_inc();
@@ -440,6 +449,12 @@ impl Sut for GSet<u64> {
         let x = a.below(6);
         t.call("gset.read", &[sx(self), sx(&self.read())]);
         t.call("gset.contains", &[sx(self), x.to_string(), self.contains(&x).to_string()]);
+        // the direct mutator and the conversion into a BTreeSet
+        let mut ins = self.clone();
+        ins.insert(x);
+        t.call("gset.apply", &[sx(self), x.to_string(), sx(&ins)]);
+        let bt: BTreeSet<u64> = BTreeSet::from(self.clone());
+        t.call("gset.read", &[sx(self), sx(&bt)]);
     }
     fn extra(&self, _o: &Self, _a: &mut Args, t: &mut Out) {
         serde_rt("gset", self, t);
@@ -1444,6 +1459,8 @@ impl Sut for List<u64, A> {
         t.call("list.get", &[sx(self), sx(&id), sx(&self.get(&id))]);
         let into: Vec<u64> = self.clone().read_into();
         t.call("list.read_into", &[sx(self), sx(&into)]);
+        let owned: Vec<u64> = self.clone().into_iter().collect();
+        t.call("list.read_into", &[sx(self), sx(&owned)]);
     }
     fn extra(&self, _o: &Self, _a: &mut Args, t: &mut Out) {
         serde_rt("list", self, t);
